@@ -277,3 +277,7 @@ def _states(c):
                 yield dict(self=sd, split_bitmask=split), {}, desc + " split=%d" % split
         else:
             yield dict(self=sd), {}, desc
+
+
+def replay(ctx, rec):
+    return dreplay.replay_state_record(rec, CONTRACTS, _states)
